@@ -840,6 +840,11 @@ impl VecModel {
                 }
             }
         }
+        if l >= 20 && n == 0 {
+            // "long" jobs: the next operations see 9 / 17 elements (all index codes are relative to the length)
+            acts.push(VAct::ExtendIter { n: 9, hint: 0 });
+            acts.push(VAct::ExtendIter { n: 17, hint: 1 });
+        }
         for k in [0u8, 2] {
             if (k as usize) <= room {
                 acts.push(VAct::ExtendFromSlice { n: k });
